@@ -158,9 +158,8 @@ func classify(name string, id tls.ClientHelloID) parrot {
 		if spec.TLSVersMin != 0 {
 			p.Min = spec.TLSVersMin
 		}
-		if spec.TLSVersMax == tls.VersionTLS13 {
-			p.Max13 = true
-		}
+		// without a supported_versions extension the hello offers its legacy version (TLS 1.2) and below only,
+		// whatever TLSVersMax says (ApplyConfig, u_conn.go)
 	}
 	return p
 }
